@@ -178,11 +178,15 @@ def run(eng, run):
     check_all_attempted(eng, run, race, tc)
     check_entry_lists(eng, run, resolver)
     check_registered(eng, run)
+    check_winner_handoff(eng, run)
     # the race winner handed to the TLS layer: a handshake that fails *or is cancelled* closes it (ownership machinery of C14)
     from rules import c14
     from sa.analyses.closing import CloserRegistry
     registry = CloserRegistry(eng)
     c14.check_close_path(eng, run, registry, db.fn("lowlevel.api_async.transports.tls:AsyncTLSStreamTransport.wrap"), tracked=["transport"], exits="exc", rule="C19.own")
+    # the blocking twin: the socket connected by socket.create_connection() (which walks the address list itself) is closed when the
+    # rest of the constructor fails
+    c14.check_close_path(eng, run, registry, db.fn("clients.tcp:TCPNetworkClient.__init__"), tracked=["socket", "transport"], exits="exc", rule="C19.own", late=("socket", "transport"))
 
 
 def check_entry_lists(eng, run, resolver):
@@ -226,6 +230,41 @@ def check_entry_lists(eng, run, resolver):
                             "and a viable attempt fails)")
             run.ob("C19.all", f"{fn.short}:{kw}:resolved-list-unchanged", not probs)
     run.floor("C19.all entry-point address lists", n, 4)
+
+
+def check_winner_handoff(eng, run):
+    """the race winner is handed from create_tcp_connection() to wrap_stream_socket() with no clean-up around the call: between its
+    entry and the point where the event loop takes the socket over (which closes it on failure) wrap_stream_socket() runs no check
+    that can raise for a network reason - the connected socket would be neither returned nor closed"""
+    from sa.analyses.hold import explicit_raiser
+    n = 0
+    for ci in eng.db.classes.values():
+        ctc, wss = ci.methods.get("create_tcp_connection"), ci.methods.get("wrap_stream_socket")
+        if ctc is None or wss is None or not ci.module.name.startswith("easynetwork.lowlevel.api_async.backend"):
+            continue
+        # is the call unprotected in create_tcp_connection?
+        call = next((c for c in own_nodes(ctc.node) if isinstance(c, ast.Call) and isinstance(c.func, ast.Attribute) and c.func.attr == "wrap_stream_socket"), None)
+        if call is None:
+            continue
+        protected = any(isinstance(t, ast.Try) and any(call in list(ast.walk(b)) for b in t.body) and t.handlers for t in own_nodes(ctc.node))
+        if protected:
+            continue
+        n += 1
+        sock = wss.params()[1].arg if len(wss.params()) > 1 else "socket"
+        bad = []
+        for st in wss.node.body:
+            if any(isinstance(x, ast.Await) for x in ast.walk(st)):
+                break  # the hand-off to the event loop / the backend's socket wrapper
+            for c in ast.walk(st):
+                if isinstance(c, ast.Call) and any(isinstance(a, ast.Name) and a.id == sock for a in c.args):
+                    for t in eng.typer.call_targets(wss, c, dispatch=False):
+                        if hasattr(t, "qualname") and not isinstance(t, str) and explicit_raiser(eng, t):
+                            bad.append((c, t))
+        for c, t in bad[:1]:
+            run.finding("C19.own", wss, _stmt_at(wss, c.lineno), f"`{ast.unparse(c)[:60]}` can raise for a network reason (the peer reset the connection) while this function is the only owner of the "
+                        "race winner: the socket is neither returned nor closed")
+        run.ob("C19.own", f"{ci.name}.wrap_stream_socket:no-failable-check-before-the-hand-off", not bad)
+    run.floor("C19.own backends handing the race winner to wrap_stream_socket", n, 1)
 
 
 def check_registered(eng, run):
@@ -502,4 +541,11 @@ MUTANTS += [
     Variant("local-addresses-first-per-family", _CSC,
             lambda fn: insert_after(fn, __import__("sa.mutate", fromlist=["stmt_has"]).stmt_has("local_addrinfo = await self.ensure_resolved"), "local_addrinfo = list({info[0]: info for info in reversed(local_addrinfo)}.values())"),
             "C19.all", why="bind() fall-back to the next local address of the family is lost (seed C19-6)"),
+]
+
+
+MUTANTS += [
+    Variant("asyncio-wrap-validates-connectedness-before-the-hand-off", "lowlevel.api_async.backend._asyncio.backend:AsyncIOBackend.wrap_stream_socket",
+            lambda fn: fn.body.insert(1, ast.parse("_utils.check_socket_is_connected(socket)").body[0]), "C19.own",
+            why="a peer reset between the TCP handshake and the wrap: ENOTCONN is raised and the race winner leaks (seed C19-8)"),
 ]
